@@ -303,6 +303,8 @@ func runOps(h *Host, ops []Op, hk *execHooks, st *Stats) (*Trace, *Violation) {
 		case "release":
 			h.Release(op.Inv, op.Err)
 			settle(hk.bubble)
+		case "reregister":
+			h.Reregister(op.Var)
 		case "snapshot":
 			func() {
 				defer func() { recover() }()
